@@ -1016,6 +1016,47 @@ fn arabic_long_runs(acc: &Acc<'_>, lens: std::ops::RangeInclusive<usize>, bound:
     json!({"mark_run_lengths": lens, "max_positions_deviating_from_fatha": bound, "executions": stats.executions})
 }
 
+/// Every code point of the blocks a script's rules classify (Arabic modifier combining marks, Hebrew and Thai / Lao
+/// special cases, split vowels ...) in five small contexts under that script's tag: the alphabets above hold one
+/// representative per class, so a character that a rule lists (or must not list) is only reached here. The model decides
+/// each character by its own tables (combining class from the Unicode data crate, the rule lists written out above).
+fn classification_sweep(acc: &Acc<'_>) -> Value {
+    // (spec name, base letter, two marks of the script with different classes, ranges swept)
+    let plans: [(&str, u32, u32, u32, &[(u32, u32)]); 9] = [
+        ("arab", 0x628, 0x64E, 0x651, &[(0x600, 0x6FF), (0x750, 0x77F), (0x8A0, 0x8FF), (0xFB50, 0xFBC2), (0xFE70, 0xFE7F), (0x10EFD, 0x10EFF)]),
+        ("syrc", 0x710, 0x730, 0x651, &[(0x600, 0x6FF), (0x700, 0x74F), (0x8A0, 0x8FF)]),
+        ("hebr(unmapped)", 0x5D0, 0x5B4, 0x5BC, &[(0x591, 0x5F4), (0xFB1D, 0xFB4F)]),
+        ("thai", 0xE01, 0xE34, 0xE48, &[(0xE01, 0xE5B)]),
+        ("lao", 0xE81, 0xEB4, 0xEC8, &[(0xE81, 0xEDF)]),
+        ("latn", 0x61, 0x301, 0x323, &[(0x2F0, 0x36F), (0x1AB0, 0x1AFF), (0x1DC0, 0x1DFF), (0x20D0, 0x20FF), (0xFE20, 0xFE2F)]),
+        ("mlym", 0xD15, 0xD3E, 0xD4D, &[(0xD00, 0xD7F)]),
+        ("knda", 0xC95, 0xCBE, 0xCCD, &[(0xC80, 0xCFF)]),
+        ("khmr", 0x1780, 0x17B6, 0x17D2, &[(0x1780, 0x17FF)]),
+    ];
+    let mut total = 0u64;
+    let mut swept = 0u64;
+    for (name, base, m1, m2, ranges) in plans.iter() {
+        let Some(sp) = SPECS.iter().find(|s| s.name == *name) else { continue };
+        let (b, m1, m2) = (char::from_u32(*base).unwrap(), char::from_u32(*m1).unwrap(), char::from_u32(*m2).unwrap());
+        let cps: Vec<char> = ranges.iter().flat_map(|&(a, z)| (a..=z).filter_map(char::from_u32)).collect();
+        swept += cps.len() as u64;
+        total += cps
+            .par_iter()
+            .map(|&c| {
+                let contexts: [Vec<char>; 5] = [vec![b, m1, c], vec![b, c, m1], vec![b, c, m2], vec![b, m2, c, m1], vec![c, b, c]];
+                for s in &contexts {
+                    acc.process(sp.tag, sp.fam, sp.sub, s, "classification-sweep");
+                }
+                contexts.len() as u64
+            })
+            .sum::<u64>();
+    }
+    acc.ctx.evals(total);
+    acc.ctx.add_states(total);
+    acc.ctx.add_transitions(total);
+    json!({"code_points": swept, "strings": total})
+}
+
 /// Arabic: every (class < 33)^a shadda^b (class > 33)^c pattern (distinct characters of equal class
 /// inside the groups so that stability is observable), in three input orders.
 fn arabic_patterns(acc: &Acc<'_>, max_total: usize) -> Value {
@@ -1244,6 +1285,7 @@ pub fn run(ctx: &Ctx) {
     let rows = enumerate_strings(&acc, max_len);
     let long = if thorough { arabic_long_runs(&acc, 17..=24, 3) } else { arabic_long_runs(&acc, 17..=22, 3) };
     let pats = arabic_patterns(&acc, if thorough { 64 } else { 40 });
+    let sweep = classification_sweep(&acc);
     let mg = map_glyphs_agrees(ctx, if thorough { 4 } else { 3 });
 
     // samples: offered sequentially in a fixed order so that the evidence file is reproducible
@@ -1288,6 +1330,7 @@ pub fn run(ctx: &Ctx) {
     ctx.set("per_script", json!(rows));
     ctx.set("arabic_long_runs", long);
     ctx.set("arabic_group_patterns", pats);
+    ctx.set("classification_sweep", sweep);
     ctx.set("map_glyphs_strings", json!(mg));
     ctx.set(
         "bounds",
